@@ -97,7 +97,7 @@ func escapeStr(s string) string {
 
 func isAtomic(e Expr) bool {
 	switch v := e.(type) {
-	case IntLit, StrLit, StrSrc, BoolLit, UnitLit, Var, Tuple, SliceLit, RecordLit, Paren, RawStr, Interp:
+	case IntLit, IntSrc, StrLit, StrSrc, BoolLit, UnitLit, Var, Tuple, SliceLit, RecordLit, Paren, RawStr, Interp:
 		return true
 	case Field:
 		_, ok := v.E.(Var)
@@ -146,6 +146,8 @@ func (p *Printer) Expr(e Expr, col int, ctx int) []string {
 	switch v := e.(type) {
 	case IntLit:
 		d.add(fmt.Sprint(v.V))
+	case IntSrc:
+		return []string{v.Src}
 	case StrSrc:
 		return []string{"\"" + v.Src + "\""}
 	case StrLit:
